@@ -49,11 +49,24 @@ def plan(tier, seed):
                     items.append(dict(kind=kind, arch=arch, scope="full", net=net, part=part))
         for arch in ([1, 1], [2, 3], [3, 2], [4, 4]):
             items.append(dict(kind=kind, arch=arch, scope="stateful"))
+        # moderately large parameters inside the stated domain (|x| up to 10, one sign or mixed): log-probabilities
+        # of several hundred, far beyond single-precision range but far from double overflow
+        for arch in [[2, 2], [3, 2], [2, 4], [3, 3], [4, 4]] + ([] if tier == "quick" else [[5, 3], [5, 6]]):
+            items.append(dict(kind=kind, arch=arch, scope="large"))
     return items
 
 
 def _assignments(item):
     kind, arch = item["kind"], item["arch"]
+    if item["scope"] == "large":
+        from ..common import pattern
+        sizes = net_sizes(kind, arch)
+        for c in (4.0, 7.0, 10.0, -7.0):
+            yield ("large", "uniform", c), [[c] * sizes[0]] + [pattern(n, 1, 1) for n in sizes[1:]]
+        for q in range(3):
+            for f in (3.0, 5.0):
+                yield ("large", "scaled-pattern", q, f), [[f * x for x in pattern(sizes[0], q, 0)]] + [[f * x for x in pattern(n, q, 1)] for n in sizes[1:]]
+        return
     if item["scope"] == "patdev":
         yield from param_assignments(kind, arch, npat=1, dev=item["dev"], q0=item["q"])
     else:
@@ -176,6 +189,21 @@ def check_case(acc, kind, arch, params, tag=None, st=None, history=None):
                 break
     except LibRaised as e:
         bad(f"born:raised:{e.kind}", e.tb, None, detail="1-D / 2-row call form")
+    # batches with repeated basis states that are NOT grouped (what a set of Monte-Carlo samples looks like)
+    try:
+        D_ = 2 ** n
+        for nm, ix in (("a,b,a,c,b", [0, D_ - 1, 0, 1 % D_, D_ - 1]), ("tiled-space", list(range(D_)) * 2), ("descending-with-repeat", list(range(D_ - 1, -1, -1)) + [D_ // 2])):
+            sub = space[ix]
+            keep_ = sub.clone()
+            o_psi = L.cplx.numpy(call(st.psi, sub))
+            o_p = call(st.probability, sub).numpy()
+            o_a = call(st.amplitude, sub).numpy()
+            o_f = call(st.phase, sub).numpy()
+            if not (close(o_psi, psi[ix], 1e-12) and close(o_p, p[ix], 1e-12) and close(o_a, amp[ix], 1e-12) and close(o_f, phs[ix], 1e-12)) or not torch.equal(sub, keep_):
+                bad("born:batch-with-ungrouped-repeats", [o_psi, o_p], [psi[ix], p[ix]], detail=dict(batch=nm))
+                break
+    except LibRaised as e:
+        bad(f"born:raised:{e.kind}", e.tb, None, detail="batch with repeats")
     # basis states given in another dtype (samples loaded from files are often float32 / integer): an
     # implementation may refuse them, but it must never return different numbers
     if tag is not None and tag[0] in ("pat", "stateful"):
